@@ -173,7 +173,8 @@ class StopRecorder:
 def run_one(tape, opts):
     out = Outcome()
     stream_suite, wspecs, faults = gen(tape)
-    traced = tape.chance("config", 1, 12, "traced")
+    traced = tape.chance("config", 1, 4 if opts.get("tier") == "thorough" else 12, "traced")   # line-level pre-emption
+    failfast = (not stream_suite) and tape.chance("config", 1, 4, "caller-result-failfast")
     nitems = sum(len(w["items"]) + 2 for w in wspecs)
     est = nitems * (60 if traced else 14) + 20
     if traced:
@@ -241,6 +242,7 @@ def run_one(tape, opts):
         suite = testtools.ConcurrentStreamTestSuite(make_tests_csts)
     else:
         target = TExt(world, "caller", plan)
+        target.failfast = failfast
         import unittest as _ut
         suite = testtools.ConcurrentTestSuite(_ut.TestSuite(), make_tests_cts, wrap_result=wrap_result)
 
@@ -335,6 +337,8 @@ def run_one(tape, opts):
         if w.crashed:
             out.fire("runner-crash")
     out.probe("suite:" + ("stream" if stream_suite else "plain"))
+    if failfast:
+        out.probe("caller-result-failfast")
     out.probe("policy:" + policy)
     if traced:
         out.probe("traced-run")
